@@ -249,7 +249,7 @@ def run(tier, seed, replay=None):
         dist["--test:" + ("ok" if rc == 0 else "error" if rc == 1 else str(rc))] += 1
         if rc not in (0, 1):
             rep.fail("C18: redproxy-rs --test on document (%s) ends with %s: %s" % (what[:120], rc, tail[-160:].replace("\n", " ")),
-                     {"kind": "failing-input", "docs": [dict(what=what, doc=d)], "observed": "rc=%s %s" % (rc, tail)})
+                     {"kind": "failing-input", "docs": [dict(what=what, doc=d if len(json.dumps(d, default=str)) < 20000 else "long")], "observed": "rc=%s %s" % (rc, tail)}, tags=doc_tags(d))
         o = inproc.get(json.dumps(d, sort_keys=True, default=str))
         if o is not None and (o == "OK") != (rc == 0) and rc in (0, 1):
             rep.fail("C18: document (%s): --test says %s, the in-process start-up sequence says %s" % (what[:120], "ok" if rc == 0 else "error", o[:60]),
